@@ -44,9 +44,10 @@ def cases(tier, seed):
     for m_ in (1002, 1004, 1101) + ((2050,) if tier == "thorough" else ()):
         yield {"kind": "bigbatch", "k": 3, "m": m_, "strategy": "distance"}
     # many clusters (k beyond any small constant: 33, 40, 70) on skewed data with n mod k != 0, fit and balanced prediction
-    for (k, n_) in ((33, 70), (40, 125), (40, 205), (70, 163)) + (((40, 163), (64, 200), (100, 250)) if tier == "thorough" else ()):
+    for (k, n_) in ((12, 50), (33, 70), (40, 125), (40, 205), (70, 163)) + (((40, 163), (64, 200), (100, 250)) if tier == "thorough" else ()):
         for strategy in ("distance", "gain"):
-            yield {"kind": "manyk", "k": k, "n": n_, "strategy": strategy, "seeds": [0, 1] if tier == "quick" else [0, 1, 2, 3]}
+            yield {"kind": "manyk", "k": k, "n": n_, "strategy": strategy, "seeds": [0, 1] if tier == "quick" else [0, 1, 2, 3],
+                   "maxrows": 1100 if tier == "quick" else 1600}
     # every initial label vector (kmeans0=False) on a few data sets
     datasets = [[[0.0], [1.0], [2.0], [3.0], [4.0]], [[0.0], [0.0], [1.0], [3.0], [3.0]],
                 [[0.0, 0.0], [1.0, 0.0], [0.0, 1.0], [2.0, 2.0], [2.0, 1.0]],
@@ -235,8 +236,16 @@ def run_case(case):
             for att in ("cluster_centers_", "labels_", "inertia_", "n_iter_", "weights_", "n_features_in_", "_n_threads"):
                 if hasattr(m, att):
                     setattr(mb, att, getattr(m, att))
-            for msz in (n, n + 38, k + 1, 2 * k - 1):
-                B = rs_.randn(msz, 2) * 0.5 + 3.0        # one-sided batch
+            C_ = numpy.asarray(m.cluster_centers_)
+            batches = [("one-sided", rs_.randn(msz, 2) * 0.5 + 3.0) for msz in (n, n + 38, k + 1, 2 * k - 1)]
+            # batches that sit on all centres but one (the last / the first), k-1 rows on each: the nearest-centre labels then look
+            # balanced although one cluster receives nothing
+            for skip_ in ((k - 1, 0) if (k - 1) ** 2 <= case.get("maxrows", 1100) and sd == case["seeds"][0] else ()):
+                keep_ = [j for j in range(k) if j != skip_]
+                batches.append(("k-1 rows on every centre but centre %d" % skip_,
+                                numpy.repeat(C_[keep_], k - 1, axis=0) + 1e-6 * rs_.randn((k - 1) * (k - 1), 2)))
+            for bname, B in batches:
+                msz = len(B)
                 numpy.random.seed(sd)
                 bcond = "strategy=%s,%s,m mod k = %s" % (case["strategy"], "m<k" if msz < k else "m>=k", msz % k if msz % k < 2 else ">=2")
                 try:
@@ -248,7 +257,7 @@ def run_case(case):
                 cnt += 1
                 bc = numpy.bincount(bl, minlength=k).tolist() if bl.shape == (msz,) and bl.min() >= 0 and bl.max() < k else None
                 if bc is None or not _sizes_ok(bc, msz, k):
-                    bad("balanced predict size outside floor/ceil", bcond, "sizes %r for a one-sided batch of %d rows, k=%d, seed %d" % (bc, msz, k, sd))
+                    bad("balanced predict size outside floor/ceil", bcond, "sizes %r for a batch (%s) of %d rows, k=%d, seed %d" % (bc, bname, msz, k, sd))
         return {"viol": viol, "nontrivial": True, "states": cnt, "transitions": cnt, "outcome": tuple(sorted(outcomes))[:50]}
     if case["kind"] == "medium":
         k, n = case["k"], case["n"]
